@@ -6,7 +6,7 @@ From MMD.lib Require Import Bytes.
 From MMD.lib Require Import Lemon Utf8 XmlDfa.
 From MMD.gen Require Import ParserTables.
 From MMD.gen Require Import Escapers CharTable.
-From MMD.model Require Import DStringModel DStringSpec PoolModel TreeCheck LabelModel CriticModel TranscludeModel.
+From MMD.model Require Import DStringModel DStringSpec PoolModel TreeCheck LabelModel CriticModel TranscludeModel MetaModel.
 From MMD.proofs Require Import EscaperProofs.
 Extraction Language OCaml.
 Extraction "mmdmodel.ml"
@@ -20,4 +20,5 @@ Extraction "mmdmodel.ml"
   EscaperProofs.esc Escapers.esc_html Escapers.esc_html_br Escapers.esc_latex Escapers.esc_odf Escapers.esc_odf_br Escapers.esc_opml Escapers.esc_itmz
   Utf8.valid_utf8 XmlDfa.xml_safe
   CriticModel.critic_accept CriticModel.critic_reject CriticModel.critic_accept_range CriticModel.critic_reject_range
-  TranscludeModel.transclude_top.
+  TranscludeModel.transclude_top
+  MetaModel.meta_parse MetaModel.meta_value_for.
